@@ -222,6 +222,8 @@ def default_cfgs(tier: str) -> list[Cfg]:
             Cfg(max_depth=2, max_stmts=3, max_routines=2, coro=True)]
     if tier == "thorough":
         cfgs += [Cfg(max_depth=4, max_stmts=6, max_routines=4), Cfg(max_depth=5, max_stmts=3, max_routines=2)]
+    for c in cfgs:
+        c.with_halt = 0.25      # `with (actor X) { end; }`: the compiler's flow analysis must not take the End for an end
     return cfgs
 
 
